@@ -36,6 +36,9 @@ var (
 		pf     [][]byte
 		r1, r2 []byte
 	}
+	c19Tx        *sql.Tx // the transaction opened by the update under test
+	c19ReadInTx  bool
+	c19WriteInTx bool
 	c19SignKey  crypto.PrivateKey
 	c19SignData []byte
 	c19SignHash tls.HashAlgorithm
@@ -44,6 +47,7 @@ var (
 
 //verif:stub (*github.com/google/certificate-transparency-go/internal/witness/cmd/witness/internal/witness.Witness).getLatestSTH files=witness.go method=getLatestSTH
 func c19GetLatest(w *Witness, _ func(string, ...interface{}) *sql.Row, logID string) ([]byte, error) {
+	c19ReadInTx = c19Tx != nil
 	if c19DBFails {
 		return nil, errors.New("database is locked")
 	}
@@ -54,7 +58,9 @@ func c19GetLatest(w *Witness, _ func(string, ...interface{}) *sql.Row, logID str
 }
 
 //verif:stub (*github.com/google/certificate-transparency-go/internal/witness/cmd/witness/internal/witness.Witness).setSTH files=witness.go method=setSTH
-func c19SetSTH(w *Witness, tx *sql.Tx, logID string, sth []byte) error {
+func c19SetSTH(w *Witness, tx any, logID string, sth []byte) error {
+	t, isTx := tx.(*sql.Tx)
+	c19WriteInTx = isTx && t != nil && t == c19Tx
 	c19Writes = append(c19Writes, sth)
 	c19Row = sth
 	return nil
@@ -62,7 +68,8 @@ func c19SetSTH(w *Witness, tx *sql.Tx, logID string, sth []byte) error {
 
 //verif:stub (*database/sql.DB).BeginTx files=witness.go method=BeginTx
 func c19BeginTx(db *sql.DB, ctx context.Context, opts *sql.TxOptions) (*sql.Tx, error) {
-	return &sql.Tx{}, nil
+	c19Tx = &sql.Tx{}
+	return c19Tx, nil
 }
 
 //verif:stub (*database/sql.Tx).Rollback files=witness.go method=Rollback
@@ -130,6 +137,7 @@ func Harness_C19_update() {
 	logKey, otherKey := &c19Key{1}, &c19Key{2}
 	w := &Witness{db: &sql.DB{}, sk: sk, Logs: map[string]ct.SignatureVerifier{c19LogID: {PubKey: logKey}, c19OtherLogID: {PubKey: otherKey}}}
 	c19Writes, c19SigCalls, c19SigSeen, c19SigKeys, c19ConsCalls, c19Signs = nil, 0, nil, nil, 0, 0
+	c19Tx, c19ReadInTx, c19WriteInTx = nil, false, false
 	c19DBFails = vChoice("db-fails", 2) == 1
 	unknownLog := vChoice("unknown-log", 2) == 1
 	nextIDKind := vChoice("next-logid", 4)
@@ -159,6 +167,10 @@ func Harness_C19_update() {
 	// --- safety: what may be written
 	vAssert(len(c19Writes) <= 1, "at most one write per update")
 	if len(c19Writes) == 1 {
+		// Concurrent updates are serialised by the database: the held STH is read and the new one
+		// written inside one transaction. (A structural proxy for the 'issued concurrently' clause:
+		// the isolation itself is the SQL back end's and is not modelled.)
+		vAssert(c19ReadInTx && c19WriteInTx, "the held STH is read and the new one written inside one database transaction")
 		vAssert(bytes.Equal(c19Writes[0], nextRaw), "only the candidate is ever stored")
 		vAssert(!unknownLog && c19SigCalls >= 1 && c19SigOK[0], "stored only with a valid signature of the configured log")
 		vAssert(c19SigSeen[0].TreeSize == next.TreeSize && c19SigSeen[0].SHA256RootHash == next.SHA256RootHash && c19SigSeen[0].Timestamp == next.Timestamp, "the signature check covered the candidate's own fields")
